@@ -481,6 +481,27 @@ fn canonical(tier: Tier) -> Vec<KCase> {
                 busy: None,
             });
         }
+        if via == Via::Lib {
+            // a database beyond 16 MiB most of which becomes free pages: a large snapshot replaced
+            // by a small one (whatever housekeeping a backend does then must be crash-safe too)
+            let ops = vec![
+                Op::AddVersion { c: 0, parent: IdRef::Nil, data: d(1, 30) },
+                Op::AddSnapshot { c: 0, version: IdRef::Latest(0), data: d(2, 17 << 20) },
+                Op::AddVersion { c: 0, parent: IdRef::Latest(0), data: d(3, 4000) },
+                Op::AddSnapshot { c: 0, version: IdRef::Latest(0), data: d(4, 50) },
+                Op::AddVersion { c: 0, parent: IdRef::Latest(0), data: d(5, 20) },
+            ];
+            out.push(KCase {
+                via,
+                case: Case { cfg: Default::default(), salt: 8, nclients: 1, ops },
+                subsets: vec![0xA5A5_5A5A],
+                continuation: vec![Op::GetSnapshot { c: 0 }, Op::AddVersion { c: 0, parent: IdRef::Latest(0), data: d(8, 12) }],
+                max_points: tier.pick(48, 300),
+                point_salt: 3,
+                deep: false,
+                busy: None,
+            });
+        }
         // lock contention: another connection holds the write lock while an AddVersion (the
         // first of a new client, the next of a chain) is handled - for less than the lock-wait
         // budget, for one, two, three ... budgets - and then lets go
